@@ -75,7 +75,10 @@ def digest (s : State) : String :=
   let ht := joinSorted (s.htxns.map fun (h, q) => s!"{h}:{q}") ","
   let hau := joinSorted (s.haddrUx.map fun (a, l) => a ++ ":" ++ joinSorted l "+") ","
   let hat := joinSorted (s.haddrTxns.map fun (a, l) => a ++ ":" ++ joinSorted l "+") ","
-  s!"Dhead={head};len={s.chain.length};chain={chain};ux={ux};xor={hex16 s.xor};ai={ai};ac={s.aidx.length};pool={pool};pu={pu};hp={hp};ho={ho};ht={ht};hau={hau};hat={hat}"
+  let bal := if s.chain.isEmpty then "err" else match balances s ["a0", "a1", "a2", "a3", "a4", "a5", "a6", "a7"] with
+    | .error _ => "err"
+    | .ok l => ",".intercalate (l.map fun (a, b) => s!"{a}:{b.cc}/{b.ch}/{b.pc}/{b.ph}")
+  s!"Dhead={head};len={s.chain.length};chain={chain};ux={ux};xor={hex16 s.xor};ai={ai};ac={s.aidx.length};pool={pool};pu={pu};hp={hp};ho={ho};ht={ht};hau={hau};hat={hat};bal={bal}"
 
 /-! ### driver state -/
 
@@ -118,7 +121,7 @@ def propsViolated (w : W) (implD modelD : String) (implRes modelRes : String) : 
   let c02 := if field implD "ux" != field modelD "ux" then ["C02"] else []
   let c04 := if field implD "chain" != field modelD "chain" || (implRes == "ok") != (modelRes == "ok") then ["C04"] else []
   let c06 := if field implD "pool" != field modelD "pool" || field implD "pu" != field modelD "pu" then ["C06"] else []
-  let c07 := if ["xor", "ai", "ac", "ho", "ht", "hau", "hat", "hp"].any (fun k => field implD k != field modelD k) then ["C07"] else []
+  let c07 := if ["xor", "ai", "ac", "ho", "ht", "hau", "hat", "hp", "bal"].any (fun k => field implD k != field modelD k) then ["C07"] else []
   let c33 := if field implD "chain" != field modelD "chain" then ["C33"] else []
   c01 ++ c02 ++ c04 ++ c06 ++ c07 ++ c33
 
